@@ -21,6 +21,8 @@ FAULTS = {
     "children-with-arguments": ["= @children E"],
     "render-without-arguments": ["= @render"],
     "conditional-attribute-without-dynamic-value": ['%p{hidden ? "yes"} x'],
+    "attribute-value-not-a-string-literal": ['%p{title: "\\q"} x'],
+    "class-value-not-a-string-literal": ['%p{class: "a\\qb"} x'],
     "unterminated-attribute-list": ['%p{a: "b", c: #{E.S[0]}'],
     "unterminated-interpolation": ["%p text #{E.S[0]"],
     "unterminated-attribute-interpolation": ["%p{a: #{E.S[0]} x"],
